@@ -14,7 +14,10 @@ fn main() {
     let suite = args[1].as_str();
     let input = BufReader::new(std::fs::File::open(&args[2]).expect("open cases"));
     let mut out = BufWriter::new(std::fs::File::create(&args[3]).expect("create out"));
-    std::panic::set_hook(Box::new(|_| {}));
+    if std::env::var_os("RNVERIF_PANIC").is_none() {
+        // silent by default; RNVERIF_PANIC=1 keeps the default hook (panic messages of actor tasks)
+        std::panic::set_hook(Box::new(|_| {}));
+    }
     let mut runner = suites::make(suite).unwrap_or_else(|| {
         eprintln!("unknown suite {}", suite);
         std::process::exit(2);
